@@ -244,6 +244,8 @@ def run_solve(sess, op, step, out, stats, log):
         elif entry == "funcjac":
             origin = bool(op.get("include_origin"))
             args = dict(includeOrigin=origin, full_output=bool(op.get("full_output")), method=method)
+            if op.get("nsteps"):
+                args["nsteps"] = int(op["nsteps"])          # the caller's own step budget per output interval
             res = ou.integrateFuncJac(ode.ode_T, ode.jacobian_T, sess.x0.copy(), sess.t0, targ, **args)
             sol = res[0] if op.get("full_output") else res
         else:
@@ -258,6 +260,11 @@ def run_solve(sess, op, step, out, stats, log):
             # an explicit / non-stiff method giving up on a stiff system (|Re lambda| x horizon in the thousands):
             # integrator failure is outside the property (it is stated on models on which the integrators succeed)
             stats["stiff_explicit_failure_void"] = stats.get("stiff_explicit_failure_void", 0) + 1
+            return
+        if op.get("nsteps") and type(e).__name__ == "IntegrationError":
+            # the caller restricted the number of internal steps and the integrator ran out of them: a legitimate
+            # failure (what must NOT happen is rows that are silently not the solution)
+            stats["step_budget_exhausted_void"] = stats.get("step_budget_exhausted_void", 0) + 1
             return
         if op.get("long") and type(e).__name__ == "IntegrationError":
             # an integrator giving up on a gap of tens of periods: integrator failure is outside the property
@@ -1159,6 +1166,8 @@ def gen_solve_ops(rng, t0, tmax, count):
         if entry == "funcjac":
             op["full_output"] = rng.random() < 0.4
             op["include_origin"] = rng.random() < 0.5
+            if rng.random() < 0.2:
+                op["nsteps"] = rng.choice([5, 15, 40, 120])    # a small step budget: some intervals will not fit
         ops.append(op)
     return ops
 
